@@ -1382,6 +1382,8 @@ impl Backend for GitBackend {
                 contents.secure_sig = Some(SecureSig { data, sig });
             }
 
+            #[cfg(feature = "verif-hooks")]
+            crate::verif_hooks::crash_point("git.before_write_commit_object");
             let git_id =
                 locked_repo
                     .write_object(&commit)
@@ -1413,9 +1415,13 @@ impl Backend for GitBackend {
 
         // Everything up to this point had no permanent effect on the repo except
         // GC-able objects
+        #[cfg(feature = "verif-hooks")]
+        crate::verif_hooks::crash_point("git.before_no_gc_ref");
         locked_repo
             .edit_reference(to_no_gc_ref_update(&id))
             .map_err(|err| BackendError::Other(Box::new(err)))?;
+        #[cfg(feature = "verif-hooks")]
+        crate::verif_hooks::crash_point("git.after_no_gc_ref");
 
         // Update the signature to match the one that was actually written to the object
         // store
